@@ -112,6 +112,7 @@ FINDING_IDS = {
     "tri_structured_solve": "F-C15-tri-structured-solve",
     "isclose_reversed_rtol": "F-C15-isclose-reversed-rtol",
     "diagonal_args_ignored": "F-C15-diagonal-args-ignored",
+    "diagonal_default_dims_batched": "F-C15-diagonal-default-dims",
     "explog_offdiag": "F-C15-exp-log-offdiagonal",
 }
 _STATUS_CACHE = {}
@@ -465,7 +466,9 @@ def g_diagonal(draw, name, order, depth, prefer=None):
     if nd == 2:
         forms += ["default", "default"]
     if not is_open("diagonal_args_ignored"):
-        forms += ["default", "offset_posdims"] + (["batchdims"] if nd > 2 else [])
+        forms += ["offset_posdims"] + (["batchdims"] if nd > 2 else [])
+        if nd == 2 or not is_open("diagonal_default_dims_batched"):
+            forms += ["default"]
     af = draw(st.sampled_from(forms))
     kw = {}
     if af == "negdims":
@@ -1595,7 +1598,13 @@ def _t_diagonal(case):
     if case.get("kind") != "reg" or short(case["fn"]) != "diagonal":
         return False
     af = case.get("argform")
-    return af in ("offset_posdims", "batchdims") or (af == "default" and len(refmodel.shape(case["recipe"])) > 2)
+    return af in ("offset_posdims", "batchdims")
+
+
+def _t_diagonal_default(case):
+    if case.get("kind") != "reg" or short(case["fn"]) != "diagonal":
+        return False
+    return case.get("argform") == "default" and len(refmodel.shape(case["recipe"])) > 2
 
 
 def _t_diag_left(case):
@@ -1631,5 +1640,6 @@ TRIGGERS = {
     "tri_structured_solve": _t_tri_structured,
     "isclose_reversed_rtol": _t_isclose,
     "diagonal_args_ignored": _t_diagonal,
+    "diagonal_default_dims_batched": _t_diagonal_default,
     "explog_offdiag": _t_explog,
 }
